@@ -92,11 +92,29 @@ func c07FullPaths(fn *ssa.Function, ip *IterPath) ([]*IterPath, bool) {
 }
 
 // c07RemainderTerm: is v (as computed on the path fp) the product
-// float64(cursor + 1) * DisjointCoeff for a cursor of list 1 or list 2?
+// float64(number of genes list k still holds) * DisjointCoeff, the number being index+1 for the index the cursor of
+// list k stands for: `cursor + 1` for an index cursor, the cursor itself for a cursor that counts the genes left,
+// in general cursor + m with m = off(cursor) + 1 (c07Cur.Off)?
 // Returns 1 or 2 for the list whose cursor it counts from, 0 when v has another shape.
-func c07RemainderTerm(fp *IterPath, v ssa.Value, fam1, fam2 map[ssa.Value]bool, isDisjoint func(ssa.Value) bool) int {
+func c07RemainderTerm(tm *Termer, fp *IterPath, v ssa.Value, fam1, fam2 map[ssa.Value]bool, isDisjoint func(ssa.Value) bool) int {
 	mul, ok := fp.ResolveAt(v).(*ssa.BinOp)
 	if !ok || mul.Op != token.MUL {
+		return 0
+	}
+	// left(cur, m): cur + m is the number of genes left in list 1 / 2
+	left := func(cur ssa.Value, m int64) int {
+		k, listTerm := 0, ""
+		switch {
+		case fam1[cur] && !fam2[cur]:
+			k, listTerm = 1, "recv.Genes"
+		case fam2[cur] && !fam1[cur]:
+			k, listTerm = 2, "p1.Genes"
+		default:
+			return 0
+		}
+		if off, okOff := tm.c07CurOf(listTerm).Off(cur); okOff && m == off+1 {
+			return k
+		}
 		return 0
 	}
 	for _, pr := range [][2]ssa.Value{{mul.X, mul.Y}, {mul.Y, mul.X}} {
@@ -107,20 +125,27 @@ func c07RemainderTerm(fp *IterPath, v ssa.Value, fam1, fam2 map[ssa.Value]bool, 
 		if !ok {
 			continue
 		}
-		add, ok := fp.ResolveAt(cv.X).(*ssa.BinOp)
-		if !ok || add.Op != token.ADD {
+		n := fp.ResolveAt(cv.X)
+		if k := left(n, 0); k != 0 {
+			return k
+		}
+		add, ok := n.(*ssa.BinOp)
+		if !ok || (add.Op != token.ADD && add.Op != token.SUB) {
 			continue
 		}
 		for _, qr := range [][2]ssa.Value{{add.X, add.Y}, {add.Y, add.X}} {
-			if k, isK := c07Int(qr[1]); !isK || k != 1 {
+			m, isK := c07Int(qr[1])
+			if !isK {
 				continue
 			}
-			cur := fp.ResolveAt(qr[0])
-			switch {
-			case fam1[cur] && !fam2[cur]:
-				return 1
-			case fam2[cur] && !fam1[cur]:
-				return 2
+			if add.Op == token.SUB {
+				if qr[1] != add.Y {
+					continue
+				}
+				m = -m
+			}
+			if k := left(fp.ResolveAt(qr[0]), m); k != 0 {
+				return k
 			}
 		}
 	}
@@ -172,7 +197,7 @@ func c07RemainderOnAllPaths(fn *ssa.Function, tm *Termer, ip *IterPath, costAcc 
 		}
 		n, right := 0, 0
 		for _, a := range adds {
-			switch c07RemainderTerm(fp, a, fam1, fam2, isDisjoint) {
+			switch c07RemainderTerm(tm, fp, a, fam1, fam2, isDisjoint) {
 			case 1:
 				n++
 				if ex2 {
@@ -1435,7 +1460,7 @@ func (r *Run) c07CheckResult(w *c07Walk, tm *Termer, paths []*IterPath) {
 				if inLoop && (w.IsDc(v) || w.IsEc(v)) {
 					continue // the unit of the last, partial iteration
 				}
-				if len(w.Tails) == 0 && c07RemainderTerm(fp, v, w.Fam1, w.Fam2, w.IsDc) != 0 {
+				if len(w.Tails) == 0 && c07RemainderTerm(tm, fp, v, w.Fam1, w.Fam2, w.IsDc) != 0 {
 					continue // counted by the exit obligation
 				}
 			}
@@ -1584,6 +1609,8 @@ func (r *Run) c07CheckStart(w *c07Walk, tm *Termer, paths []*IterPath) {
 		}
 	}
 	lenOf := map[*ssa.Phi]string{w.C1: "len(recv.Genes)", w.C2: "len(p1.Genes)"}
+	// index = cursor + bias (0 for an index cursor, -1 for a cursor that counts the genes left)
+	biasOf := map[*ssa.Phi]int64{w.C1: tm.c07BiasOf("recv.Genes"), w.C2: tm.c07BiasOf("p1.Genes")}
 	msg := ""
 	for i, pred := range w.Main.Header.Preds {
 		if w.Main.Blocks[pred] {
@@ -1601,17 +1628,14 @@ func (r *Run) c07CheckStart(w *c07Walk, tm *Termer, paths []*IterPath) {
 			e := a07Strip(c.Edges[i])
 			switch {
 			case dir[c] > 0:
-				if z, isK := constInt(e); !isK || z != 0 {
-					msg = "a cursor of the forward walk (" + c.Comment + ") does not start at the first gene (0)"
+				if z, isK := c07Int(e); !isK || z+biasOf[c] != 0 {
+					msg = "a cursor of the forward walk (" + c.Comment + ") does not start at the first gene (index 0)"
 				}
 			case dir[c] < 0:
-				sb, isSub := e.(*ssa.BinOp)
-				one := int64(0)
-				if isSub {
-					one, _ = constInt(sb.Y)
-				}
-				if !isSub || sb.Op != token.SUB || one != 1 || tm.Of(sb.X).String() != lenOf[c] {
-					msg = "a cursor of the backward walk (" + c.Comment + ") does not start at the last gene (len-1)"
+				// the index the start value stands for is len-1: start = len + k with k + bias == -1
+				base, k := c07Lin(nil, e)
+				if tm.Of(base).String() != lenOf[c] || k+biasOf[c] != -1 {
+					msg = "a cursor of the backward walk (" + c.Comment + ") does not start at the last gene (index len-1)"
 				}
 			default:
 				msg = "cannot determine the direction of a cursor"
@@ -1808,7 +1832,8 @@ func (r *Run) c07CheckGenes(w *c07Walk, tm *Termer, paths []*IterPath) {
 			feasible = append(feasible, ip)
 		}
 	}
-	sameIndex := func(a, b ssa.Value) bool {
+	biasK := map[int]int64{1: tm.c07BiasOf(listTerm[1]), 2: tm.c07BiasOf(listTerm[2])}
+	sameBase := func(a, b ssa.Value) bool {
 		a, b = a07Strip(a), a07Strip(b)
 		if a == b {
 			return true
@@ -1820,6 +1845,16 @@ func (r *Run) c07CheckGenes(w *c07Walk, tm *Termer, paths []*IterPath) {
 		// the same pure expression over the list lengths written twice (len(g.Genes)-1)
 		sa, sb := CanonTerm(tm.Of(a)), CanonTerm(tm.Of(b))
 		return sa == sb && !strings.Contains(sa, "φ") && !strings.Contains(sa, "[*]") && !strings.Contains(sa, "loop") && strings.Contains(sa, "len(")
+	}
+	// entryIndexIs: in front of the loop, idx == at + bias (idx the index read, at the cursor's start value)
+	entryIndexIs := func(idx, at ssa.Value, bias int64) bool {
+		b1, k1 := c07Lin(nil, idx)
+		b2, k2 := c07Lin(nil, at)
+		if c1, isC1 := c07Int(b1); isC1 {
+			c2, isC2 := c07Int(b2)
+			return isC2 && c1+k1 == c2+k2+bias
+		}
+		return k1 == k2+bias && sameBase(b1, b2)
 	}
 	// G == list_k[c_k] at the loop head?  (0: no)
 	carried := map[*ssa.Phi]int{}
@@ -1834,7 +1869,7 @@ func (r *Run) c07CheckGenes(w *c07Walk, tm *Termer, paths []*IterPath) {
 				continue
 			}
 			kk, ia := c07GeneLoad(tm, a07Strip(G.Edges[i]))
-			if kk == 0 || (k != 0 && kk != k) || !sameIndex(ia.Index, cur[kk].Edges[i]) {
+			if kk == 0 || (k != 0 && kk != k) || !entryIndexIs(ia.Index, cur[kk].Edges[i], biasK[kk]) {
 				return 0
 			}
 			k = kk
@@ -1847,7 +1882,7 @@ func (r *Run) c07CheckGenes(w *c07Walk, tm *Termer, paths []*IterPath) {
 				continue
 			}
 			kk, ia := c07GeneLoad(tm, ip.NextValue(G))
-			if kk != k || !w.Main.Blocks[ia.Block()] || !ip.OnPath(ia) || ip.ResolveAt(ia.Index) != ip.NextValue(cur[k]) {
+			if kk != k || !w.Main.Blocks[ia.Block()] || !ip.OnPath(ia) || !c07IndexIs(ip, ia.Index, ip.NextValue(cur[k]), biasK[k]) {
 				return 0
 			}
 		}
@@ -1866,7 +1901,7 @@ func (r *Run) c07CheckGenes(w *c07Walk, tm *Termer, paths []*IterPath) {
 			}
 			nEntry++
 			e := a07Strip(cur[k].Edges[i])
-			facts := append(append([]Guard{}, Guards(pred)...), condsAt(pred, w.Main.Header)...)
+			facts := c07FlagFacts(append(append([]Guard{}, Guards(pred)...), condsAt(pred, w.Main.Header)...), 0)
 			in := false
 			for _, g := range facts {
 				if c07InRangeFact(tm, g, func(v ssa.Value) bool { return v == e }, listTerm[k]) {
@@ -1882,13 +1917,11 @@ func (r *Run) c07CheckGenes(w *c07Walk, tm *Termer, paths []*IterPath) {
 				if !nonEmpty {
 					continue
 				}
-				if z, isZ := c07Int(e); isZ && z == 0 {
+				if z, isZ := c07Int(e); isZ && z+biasK[k] == 0 {
 					in = true
 				}
-				if sb, isSub := e.(*ssa.BinOp); isSub && sb.Op == token.SUB && tm.Of(sb.X).String() == lenT {
-					if one, isOne := c07Int(sb.Y); isOne && one == 1 {
-						in = true
-					}
+				if base, off := c07Lin(nil, e); tm.Of(base).String() == lenT && off+biasK[k] == -1 {
+					in = true
 				}
 			}
 			if !in {
@@ -1929,7 +1962,7 @@ func (r *Run) c07CheckGenes(w *c07Walk, tm *Termer, paths []*IterPath) {
 					fail(fmt.Sprintf("an iteration reads %s of a gene of list %d that was loaded in front of the loop and is not reloaded: every iteration looks at the same gene, not at the one under the cursor", fieldOf(fa.X.Type(), fa.Field).Name(), k))
 					return
 				}
-				if ip.ResolveAt(ia.Index) != ssa.Value(cur[k]) {
+				if !c07IndexIs(ip, ia.Index, cur[k], biasK[k]) {
 					fail(fmt.Sprintf("an iteration reads %s of list %d at index %s, which is not the position of that list's cursor at the start of the iteration: the gene compared is not the gene that is then matched, counted or stepped over", fieldOf(fa.X.Type(), fa.Field).Name(), k, tm.Of(ia.Index).String()))
 					return
 				}
@@ -2090,4 +2123,870 @@ func (r *Run) c07CoefficientKeys(coeff map[*types.Var]bool) {
 			r.Check(msg == "", construct, pos, fmt.Sprintf("%s is filled under its configured name %q and nothing else is", F.Name(), tagOf[F]), msg)
 		}
 	}
+}
+
+// ---------------------------------------------------------------------------
+// C07.1: the walks a call instruction executes, whatever way the callee is picked
+
+// c07Invocation is one way a call instruction of `compatibility` executes one of the two walks: the call is a static
+// call of the walk, a static call of a function that only forwards to it, or a call through a function VALUE that was
+// picked earlier (`f := (*Genome).compatFast; if linear { f = (*Genome).compatLinear }; return f(g, og, opts)`): then
+// each function the value can hold is one invocation, taken under the outcomes of the edge on which it was picked.
+type c07Invocation struct {
+	Call   ssa.CallInstruction
+	Target *ssa.Function // nil: the callee could not be resolved to a walk
+	What   string        // for the report when Target == nil
+	Conds  []Guard       // branch outcomes that hold whenever this target is the one executed
+	Args   []ssa.Value   // what the target receives as (receiver, other genome, options), as values of the caller
+}
+
+// c07Forwards: f does nothing but call one of `targets` (directly or through another function of this kind) with its own
+// parameters and return the result. perm[j] = index of the parameter of f that becomes argument j of the target. This is
+// what go/ssa builds for a method expression (`(*Genome).compatFast` is the thunk `func(g, og, opts) { return g.compatFast(og, opts) }`)
+// and what a hand-written wrapper looks like; it is read from the body, not from the synthetic function's name.
+func c07Forwards(f *ssa.Function, targets map[*ssa.Function]bool, depth int) (*ssa.Function, []int, bool) {
+	if f == nil || depth > 2 || len(f.Blocks) != 1 || len(f.FreeVars) != 0 {
+		return nil, nil, false
+	}
+	var call *ssa.Call
+	var ret *ssa.Return
+	for _, in := range f.Blocks[0].Instrs {
+		switch x := in.(type) {
+		case *ssa.Call:
+			if call != nil {
+				return nil, nil, false
+			}
+			call = x
+		case *ssa.Return:
+			ret = x
+		case *ssa.DebugRef:
+		default:
+			return nil, nil, false // anything else (a store, arithmetic on the result, a load) is not plain forwarding
+		}
+	}
+	if call == nil || ret == nil || len(ret.Results) != 1 || ret.Results[0] != ssa.Value(call) || call.Call.IsInvoke() {
+		return nil, nil, false
+	}
+	callee := call.Call.StaticCallee()
+	if callee == nil {
+		return nil, nil, false
+	}
+	var perm []int
+	used := map[int]bool{}
+	for _, a := range call.Call.Args {
+		prm, ok := a.(*ssa.Parameter)
+		if !ok {
+			return nil, nil, false
+		}
+		idx := -1
+		for i, q := range f.Params {
+			if q == prm {
+				idx = i
+			}
+		}
+		if idx < 0 || used[idx] {
+			return nil, nil, false
+		}
+		used[idx] = true
+		perm = append(perm, idx)
+	}
+	if targets[callee] {
+		return callee, perm, true
+	}
+	t, inner, ok := c07Forwards(callee, targets, depth+1)
+	if !ok || len(inner) > len(perm) {
+		return nil, nil, false
+	}
+	out := make([]int, len(inner))
+	for j, k := range inner {
+		if k >= len(perm) {
+			return nil, nil, false
+		}
+		out[j] = perm[k]
+	}
+	return t, out, true
+}
+
+// c07Invocations lists, for every call instruction of fn that can execute a function of `targets`, the invocations it
+// stands for. Calls that cannot reach a target (logging, math) are not listed; a call through a function value that
+// cannot be resolved completely is listed with Target == nil (the caller fails closed on it).
+func c07Invocations(fn *ssa.Function, targets map[*ssa.Function]bool) []c07Invocation {
+	var out []c07Invocation
+	inLoop := map[*ssa.BasicBlock]bool{}
+	for _, l := range Loops(fn) {
+		for b := range l.Blocks {
+			inLoop[b] = true
+		}
+	}
+	// leaf: the function value `f` is what the call executes under conds
+	leaf := func(c ssa.CallInstruction, f *ssa.Function, conds []Guard) {
+		args := c.Common().Args
+		if targets[f] {
+			out = append(out, c07Invocation{Call: c, Target: f, Conds: conds, Args: args})
+			return
+		}
+		if t, perm, ok := c07Forwards(f, targets, 0); ok && len(f.Params) == len(args) {
+			var mapped []ssa.Value
+			for _, k := range perm {
+				mapped = append(mapped, args[k])
+			}
+			out = append(out, c07Invocation{Call: c, Target: t, Conds: conds, Args: mapped})
+			return
+		}
+		out = append(out, c07Invocation{Call: c, What: "the function " + FuncName(f), Conds: conds})
+	}
+	Instrs(fn, func(b *ssa.BasicBlock, _ int, in ssa.Instruction) {
+		c, ok := in.(ssa.CallInstruction)
+		if !ok || c.Common().IsInvoke() {
+			return
+		}
+		if _, isBuiltin := c.Common().Value.(*ssa.Builtin); isBuiltin {
+			return
+		}
+		if _, isGo := in.(*ssa.Go); isGo {
+			return
+		}
+		if sc := c.Common().StaticCallee(); sc != nil {
+			if _, isClosure := c.Common().Value.(*ssa.MakeClosure); !isClosure {
+				if targets[sc] {
+					leaf(c, sc, Guards(b))
+				} else if _, _, fw := c07Forwards(sc, targets, 0); fw {
+					leaf(c, sc, Guards(b))
+				}
+				return
+			}
+		}
+		// a call through a function value: only values of the walks' signature matter
+		sig, _ := c.Common().Value.Type().Underlying().(*types.Signature)
+		match := false
+		for t := range targets {
+			// the walk as a plain function takes its receiver first
+			ts := t.Signature
+			if sig != nil && ts.Recv() != nil && sig.Params().Len() == ts.Params().Len()+1 && sig.Results().Len() == ts.Results().Len() {
+				match = true
+			}
+			if sig != nil && types.Identical(sig, ts) {
+				match = true
+			}
+		}
+		if !match {
+			return
+		}
+		var resolve func(v ssa.Value, conds []Guard, depth int)
+		resolve = func(v ssa.Value, conds []Guard, depth int) {
+			if depth > 8 {
+				out = append(out, c07Invocation{Call: c, What: "a function value picked through too many merges", Conds: conds})
+				return
+			}
+			switch x := v.(type) {
+			case *ssa.Function:
+				leaf(c, x, conds)
+			case *ssa.ChangeType:
+				resolve(x.X, conds, depth+1)
+			case *ssa.MakeClosure:
+				if f, isF := x.Fn.(*ssa.Function); isF && len(x.Bindings) == 0 {
+					leaf(c, f, conds)
+					return
+				}
+				out = append(out, c07Invocation{Call: c, What: "a closure over local state", Conds: conds})
+			case *ssa.Phi:
+				// the outcomes of the edge that picked the value still hold at the call only when neither the pick
+				// nor the call can be repeated with other outcomes in between
+				if inLoop[x.Block()] || inLoop[b] {
+					out = append(out, c07Invocation{Call: c, What: "a function value picked inside a loop", Conds: conds})
+					return
+				}
+				for i, e := range x.Edges {
+					ec := append(append([]Guard{}, conds...), condsAt(x.Block().Preds[i], x.Block())...)
+					resolve(e, ec, depth+1)
+				}
+			default:
+				out = append(out, c07Invocation{Call: c, What: "a function value of unknown origin (" + v.String() + ")", Conds: conds})
+			}
+		}
+		resolve(c.Common().Value, Guards(b), 0)
+	})
+	return out
+}
+
+// ---------------------------------------------------------------------------
+// Cursor representation: index cursor or count cursor
+
+// c07Cur says how the loop-carried cursor VARIABLE of one gene list relates to the INDEX at which the list is read.
+// The pinned walks carry the index itself (`list1Idx`, read `Genes[list1Idx]`, exhausted when `list1Idx < 0`, genes
+// left `list1Idx+1`). The same walk can carry the number of genes left (`left`, read `Genes[left-1]`, exhausted when
+// `left == 0`, genes left `left`): the variable is the index plus one. Every cursor fact of the rules is a fact about
+// the index; Bias is the constant with  index = variable + Bias,  read off the code: every read `list[i]` must use
+// an i that is a version of the variable (bias 0) or a version plus a constant, and all reads must agree.
+//
+// Versions are the values the variable takes over time: the header phi of the merge loop, everything merged into it
+// (start value, stepped values) and every phi it is merged into (the cursor of a tail loop). A family member that is
+// not a version is an expression over one (`left-1`); Off gives, for any of them, the constant with
+// index-at-that-time = value + Off.
+type c07Cur struct {
+	Versions map[ssa.Value]bool
+	Bias     int64
+	Why      string // non-empty: the reads of the list do not agree on one representation
+}
+
+// c07PeelConst: v = x + k for a constant step written in v itself (one level; single-edge phis are looked through).
+func c07PeelConst(v ssa.Value) (ssa.Value, int64, bool) {
+	v = a07Strip(v)
+	b, ok := v.(*ssa.BinOp)
+	if !ok {
+		return nil, 0, false
+	}
+	if bt, isBasic := b.Type().Underlying().(*types.Basic); !isBasic || bt.Info()&types.IsInteger == 0 {
+		return nil, 0, false
+	}
+	switch b.Op {
+	case token.ADD:
+		if k, isK := c07Int(b.Y); isK {
+			return b.X, k, true
+		}
+		if k, isK := c07Int(b.X); isK {
+			return b.Y, k, true
+		}
+	case token.SUB:
+		if k, isK := c07Int(b.Y); isK {
+			return b.X, -k, true
+		}
+	}
+	return nil, 0, false
+}
+
+func c07CursorInfo(fn *ssa.Function, tm *Termer, listTerm string, head *ssa.Phi) *c07Cur {
+	c := &c07Cur{Versions: map[ssa.Value]bool{}}
+	work := []ssa.Value{head}
+	for len(work) > 0 {
+		v := work[len(work)-1]
+		work = work[:len(work)-1]
+		if c.Versions[v] {
+			continue
+		}
+		if _, isC := v.(*ssa.Const); isC {
+			continue
+		}
+		c.Versions[v] = true
+		if ph, ok := v.(*ssa.Phi); ok {
+			work = append(work, ph.Edges...)
+		}
+		if refs := v.Referrers(); refs != nil {
+			for _, ref := range *refs {
+				if ph, ok := ref.(*ssa.Phi); ok {
+					work = append(work, ph)
+				}
+			}
+		}
+	}
+	have := false
+	legacy := false
+	Instrs(fn, func(_ *ssa.BasicBlock, _ int, in ssa.Instruction) {
+		ia, ok := in.(*ssa.IndexAddr)
+		if !ok || tm.Of(ia.X).String() != listTerm {
+			return
+		}
+		if _, isC := c07Int(ia.Index); isC {
+			return
+		}
+		v, k := ssa.Value(ia.Index), int64(0)
+		found := false
+		for i := 0; i < 8; i++ {
+			v = a07Strip(v)
+			if c.Versions[v] {
+				found = true
+				break
+			}
+			x, d, okP := c07PeelConst(v)
+			if !okP {
+				break
+			}
+			v, k = x, k+d
+		}
+		if !found {
+			legacy = true // an index of another make (picked by a helper, ...): the rules judge it as before
+			return
+		}
+		if have && k != c.Bias {
+			c.Why = fmt.Sprintf("%s is read at its cursor%+d in one place and at its cursor%+d in another", listTerm, c.Bias, k)
+			return
+		}
+		have, c.Bias = true, k
+	})
+	if c.Why == "" && (legacy || !have) && c.Bias != 0 {
+		c.Why = listTerm + " is read at an offset from its cursor in one place and at an index of unknown relation to the cursor in another"
+	}
+	if legacy && c.Bias == 0 && c.Why == "" {
+		return nil // as before: the cursor is the index, every family member speaks about it
+	}
+	return c
+}
+
+// Off: index (at the time v was computed) = v + Off(v), for a version of the cursor variable or an expression
+// version±const. ok=false: v is neither (no fact about v is a fact about the index).
+func (c *c07Cur) Off(v ssa.Value) (int64, bool) {
+	if c == nil {
+		return 0, true
+	}
+	k := int64(0)
+	for i := 0; i < 8; i++ {
+		v = a07Strip(v)
+		if c.Versions[v] {
+			return c.Bias - k, true
+		}
+		x, d, ok := c07PeelConst(v)
+		if !ok {
+			return 0, false
+		}
+		v, k = x, k+d
+	}
+	return 0, false
+}
+
+func (tm *Termer) c07CurOf(listTerm string) *c07Cur {
+	if tm == nil || tm.c07cur == nil {
+		return nil
+	}
+	return tm.c07cur[listTerm]
+}
+
+// c07BiasOf: index = cursor variable + bias for the list (0 when nothing else is known).
+func (tm *Termer) c07BiasOf(listTerm string) int64 {
+	if c := tm.c07CurOf(listTerm); c != nil {
+		return c.Bias
+	}
+	return 0
+}
+
+// c07FactAboutX is c07FactAbout that also says which operand was the one picked.
+func c07FactAboutX(cond ssa.Value, outcome bool, is func(ssa.Value) bool) (self, other ssa.Value, set int, ok bool) {
+	x, y, set, ok := c07Fact(cond, outcome)
+	if !ok {
+		return nil, nil, 0, false
+	}
+	switch {
+	case is(x):
+		return x, y, set, true
+	case is(y):
+		return y, x, c07Mirror(set), true
+	}
+	return nil, nil, 0, false
+}
+
+// c07Lin: v = base + k with every constant step peeled off; on a path, phis are resolved to the operand chosen there.
+func c07Lin(fp *IterPath, v ssa.Value) (ssa.Value, int64) {
+	k := int64(0)
+	for i := 0; i < 12; i++ {
+		if fp != nil {
+			v = fp.ResolveAt(v)
+		}
+		v = a07Strip(v)
+		x, d, ok := c07PeelConst(v)
+		if !ok {
+			break
+		}
+		v, k = x, k+d
+	}
+	return v, k
+}
+
+// c07IndexIs: on the path, idx == at + bias (the index read is the position the cursor value `at` stands for).
+func c07IndexIs(fp *IterPath, idx, at ssa.Value, bias int64) bool {
+	if idx == nil || at == nil {
+		return false
+	}
+	b1, k1 := c07Lin(fp, idx)
+	b2, k2 := c07Lin(fp, at)
+	return b1 == b2 && k1 == k2+bias
+}
+
+// c07FlagFacts extends branch outcomes through boolean flags of EITHER value: when `flag` is a phi web of constants
+// only and an outcome says the flag is b, control took one of the edges on which a phi of the web receives b; what is
+// known on all of those edges is known here too (`if v, trivial := emptyCase(n1, n2); trivial { return v }`: behind the
+// refused test, trivial is false, which the helper returns only after both `n == 0` tests were refused). Only
+// outcomes of conditions computed strictly before every phi of the web are carried over (the condition cannot have
+// been recomputed between the edge and the test of the flag; see effGuards), or of conditions that lie on no cycle
+// (computed at most once per call: there is no other instance to confuse it with).
+func c07FlagFacts(gs []Guard, depth int) []Guard {
+	out := append([]Guard{}, gs...)
+	if depth > 3 {
+		return out
+	}
+	for _, g := range gs {
+		f, w, ok := boolFlagOf(g.Cond)
+		if !ok {
+			continue
+		}
+		val := g.True == w
+		web := phiWeb(f)
+		if len(web.Feeders) > 0 {
+			continue // the flag can also hold a computed value: nothing follows
+		}
+		sites := flagSites(f, val)
+		if len(sites) == 0 {
+			continue
+		}
+		var common []Guard
+		for i, st := range sites {
+			cs := c07FlagFacts(condsAt(st.From, st.To), depth+1)
+			if i == 0 {
+				common = cs
+			} else {
+				common = intersectGuards(common, cs)
+			}
+		}
+		for _, c := range common {
+			if !defStrictlyDominatesWeb(c.Cond, web) && !c07RunsOnce(c.Cond) {
+				continue
+			}
+			dup := false
+			for _, o := range out {
+				if sameGuard(o, c) {
+					dup = true
+				}
+			}
+			if !dup {
+				out = append(out, c)
+			}
+		}
+	}
+	return out
+}
+
+// c07RunsOnce: the instruction defining v lies on no cycle of its function (it executes at most once per call).
+func c07RunsOnce(v ssa.Value) bool {
+	in, ok := v.(ssa.Instruction)
+	if !ok || in.Block() == nil {
+		return true
+	}
+	b := in.Block()
+	// b lies on a cycle iff b is reachable from one of its successors
+	seen := map[*ssa.BasicBlock]bool{}
+	stack := append([]*ssa.BasicBlock{}, b.Succs...)
+	for len(stack) > 0 {
+		x := stack[len(stack)-1]
+		stack = stack[:len(stack)-1]
+		if x == b {
+			return false
+		}
+		if seen[x] {
+			continue
+		}
+		seen[x] = true
+		stack = append(stack, x.Succs...)
+	}
+	return true
+}
+
+// ---------------------------------------------------------------------------
+// Constant tables: package-level variables that are never written after the package initialiser filled them with
+// constants (a transition table, a table of step sizes). Reading one is reading a constant: the rules may evaluate
+// the read (C07: the 4-state table of the backward walk looked up instead of spelled as an if-chain), and the read is
+// no input of the computation (C07.5) and no source of nondeterminism (C17.1). Everything is decided from the code:
+// the variable's type holds no pointer of any kind, the only stores that reach it are stores of constants, through
+// constant access paths, once per path, in the straight-line part of its package's initialiser, and no other
+// instruction of the whole program can write it: every use of its address is an access path ending in a load.
+
+type ConstTable struct {
+	G    *ssa.Global
+	Vals map[string]*ssa.Const // access path ("[1][2].#0") -> constant stored by the initialiser; absent: zero value
+	Why  string                // non-empty: NOT a constant table, and why
+}
+
+// c07PlainType: the type holds only numbers, booleans and strings in arrays and structs (nothing that can alias).
+func c07PlainType(t types.Type, depth int) bool {
+	if depth > 6 {
+		return false
+	}
+	switch u := t.Underlying().(type) {
+	case *types.Basic:
+		return u.Info()&(types.IsBoolean|types.IsNumeric|types.IsString) != 0 && u.Kind() != types.UnsafePointer && u.Kind() != types.Uintptr
+	case *types.Array:
+		return c07PlainType(u.Elem(), depth+1)
+	case *types.Struct:
+		for i := 0; i < u.NumFields(); i++ {
+			if !c07PlainType(u.Field(i).Type(), depth+1) {
+				return false
+			}
+		}
+		return true
+	}
+	return false
+}
+
+func (p *Prog) ConstTableOf(g *ssa.Global) *ConstTable {
+	if p.constTables == nil {
+		p.constTables = map[*ssa.Global]*ConstTable{}
+	}
+	if t, done := p.constTables[g]; done {
+		return t
+	}
+	t := &ConstTable{G: g, Vals: map[string]*ssa.Const{}}
+	p.constTables[g] = t
+	fail := func(why string) {
+		if t.Why == "" {
+			t.Why = why
+		}
+	}
+	pt, isPtr := g.Type().Underlying().(*types.Pointer)
+	if !isPtr || !c07PlainType(pt.Elem(), 0) {
+		fail("its type can hold pointers, slices, maps, functions or interfaces")
+		return t
+	}
+	if g.Pkg == nil {
+		fail("no package")
+		return t
+	}
+	initFn := g.Pkg.Func("init")
+	if p.allFuncs == nil {
+		p.CallGraph()
+	}
+	var fns []*ssa.Function
+	for fn := range p.allFuncs {
+		if fn.Blocks != nil {
+			fns = append(fns, fn)
+		}
+	}
+	if initFn != nil && !p.allFuncs[initFn] {
+		fns = append(fns, initFn)
+	}
+	stored := map[string]int{}
+	// use of an address `addr` (the variable's own address or an access path into it) by instruction `in`
+	var use func(fn *ssa.Function, addr ssa.Value, path string, constPath bool, in ssa.Instruction, depth int)
+	use = func(fn *ssa.Function, addr ssa.Value, path string, constPath bool, in ssa.Instruction, depth int) {
+		if depth > 8 {
+			fail("access path too deep")
+			return
+		}
+		follow := func(v ssa.Value, path string, constPath bool) {
+			refs := v.Referrers()
+			if refs == nil {
+				return
+			}
+			for _, ref := range *refs {
+				use(fn, v, path, constPath, ref, depth+1)
+			}
+		}
+		switch x := in.(type) {
+		case *ssa.DebugRef:
+		case *ssa.FieldAddr:
+			if x.X != addr {
+				fail("address used as a value in " + FuncName(fn))
+				return
+			}
+			follow(x, fmt.Sprintf("%s.#%d", path, x.Field), constPath)
+		case *ssa.IndexAddr:
+			if x.X != addr {
+				fail("address used as an index in " + FuncName(fn))
+				return
+			}
+			if k, isK := c07Int(x.Index); isK {
+				follow(x, fmt.Sprintf("%s[%d]", path, k), constPath)
+			} else {
+				follow(x, path+"[*]", false)
+			}
+		case *ssa.UnOp:
+			if x.Op != token.MUL || x.X != addr {
+				fail("address used in an operation in " + FuncName(fn))
+			}
+			// a load: the value read is a copy (the type holds nothing that aliases)
+		case *ssa.Store:
+			if x.Addr != addr {
+				fail("its address is stored somewhere in " + FuncName(fn))
+				return
+			}
+			c, isC := x.Val.(*ssa.Const)
+			_, basic := x.Val.Type().Underlying().(*types.Basic)
+			inLoop := false
+			for _, l := range Loops(fn) {
+				if l.Blocks[x.Block()] {
+					inLoop = true
+				}
+			}
+			switch {
+			case fn != initFn:
+				fail("written in " + FuncName(fn))
+			case !isC || !basic || c.Value == nil:
+				fail("initialised with a value that is not a constant")
+			case !constPath || inLoop:
+				fail("initialised through a computed index or in a loop")
+			default:
+				stored[path]++
+				if stored[path] > 1 {
+					fail("an element is initialised twice")
+				}
+				t.Vals[path] = c
+			}
+		default:
+			fail("its address escapes in " + FuncName(fn) + " (" + in.String() + ")")
+		}
+	}
+	for _, fn := range fns {
+		fn := fn
+		Instrs(fn, func(_ *ssa.BasicBlock, _ int, in ssa.Instruction) {
+			for _, op := range in.Operands(nil) {
+				if *op == ssa.Value(g) {
+					use(fn, g, "", true, in, 0)
+					break
+				}
+			}
+		})
+	}
+	return t
+}
+
+// Lookup: the constant at an access path given as a list of elements (field numbers and indices); ok=false when the
+// path leaves the variable's type (index out of range: the program would panic there) or does not end at a basic value.
+type ctElem struct {
+	Field int   // >= 0: struct field number
+	Index int64 // when Field < 0: array index
+}
+
+func (t *ConstTable) Lookup(path []ctElem) (constant.Value, bool) {
+	if t == nil || t.Why != "" {
+		return nil, false
+	}
+	ty := t.G.Type().Underlying().(*types.Pointer).Elem()
+	key := ""
+	for _, e := range path {
+		switch u := ty.Underlying().(type) {
+		case *types.Array:
+			if e.Field >= 0 || e.Index < 0 || e.Index >= u.Len() {
+				return nil, false
+			}
+			key += fmt.Sprintf("[%d]", e.Index)
+			ty = u.Elem()
+		case *types.Struct:
+			if e.Field < 0 || e.Field >= u.NumFields() {
+				return nil, false
+			}
+			key += fmt.Sprintf(".#%d", e.Field)
+			ty = u.Field(e.Field).Type()
+		default:
+			return nil, false
+		}
+	}
+	b, isBasic := ty.Underlying().(*types.Basic)
+	if !isBasic {
+		return nil, false
+	}
+	if c, has := t.Vals[key]; has {
+		return c.Value, true
+	}
+	switch {
+	case b.Info()&types.IsBoolean != 0:
+		return constant.MakeBool(false), true
+	case b.Info()&types.IsString != 0:
+		return constant.MakeString(""), true
+	case b.Info()&types.IsInteger != 0:
+		return constant.MakeInt64(0), true
+	case b.Info()&types.IsFloat != 0:
+		return constant.MakeFloat64(0), true
+	}
+	return nil, false
+}
+
+// c07LocalCopyOf: alloc is a local variable that holds, whenever it is read, the value stored by its single whole
+// store (`step := table[k][s]`): every other use of the cell is a field/element read. Returns that store.
+func c07LocalCopyOf(alloc *ssa.Alloc) *ssa.Store {
+	var st *ssa.Store
+	ok := true
+	var reads func(v ssa.Value, depth int)
+	reads = func(v ssa.Value, depth int) {
+		refs := v.Referrers()
+		if refs == nil || depth > 6 {
+			ok = false
+			return
+		}
+		for _, ref := range *refs {
+			switch x := ref.(type) {
+			case *ssa.DebugRef:
+			case *ssa.FieldAddr:
+				if x.X != v {
+					ok = false
+				}
+				reads(x, depth+1)
+			case *ssa.IndexAddr:
+				if x.X != v {
+					ok = false
+				}
+				reads(x, depth+1)
+			case *ssa.UnOp:
+				if x.Op != token.MUL {
+					ok = false
+				}
+			case *ssa.Store:
+				if v == ssa.Value(alloc) && x.Addr == v && st == nil {
+					st = x
+				} else {
+					ok = false
+				}
+			default:
+				ok = false
+			}
+		}
+	}
+	reads(alloc, 0)
+	if !ok {
+		return nil
+	}
+	return st
+}
+
+// c07InConstTable: the address lies in a constant table, or in a local copy of (a part of) one.
+func (p *Prog) c07InConstTable(addr ssa.Value, depth int) bool {
+	for i := 0; i < 10; i++ {
+		switch x := addr.(type) {
+		case *ssa.FieldAddr:
+			addr = x.X
+			continue
+		case *ssa.IndexAddr:
+			if _, isPtr := x.X.Type().Underlying().(*types.Pointer); !isPtr {
+				return false
+			}
+			addr = x.X
+			continue
+		case *ssa.Global:
+			return p.ConstTableOf(x).Why == ""
+		case *ssa.Alloc:
+			st := c07LocalCopyOf(x)
+			if st == nil || depth > 3 {
+				return false
+			}
+			ld, isLoad := st.Val.(*ssa.UnOp)
+			return isLoad && ld.Op == token.MUL && p.c07InConstTable(ld.X, depth+1)
+		}
+		return false
+	}
+	return false
+}
+
+// c07TableEval: the constant that v - a read of a constant table addressed by constants and by the state variable
+// of the walk (the loop-carried value `sw`, as it is at the start of the iteration) - yields on the path when the
+// state is s. The read may go through a local copy of a table row or element made earlier on the path.
+func c07TableEval(p *Prog, ip *IterPath, v ssa.Value, sw ssa.Value, s int64) (constant.Value, bool) {
+	ld, ok := ip.ResolveAt(v).(*ssa.UnOp)
+	if !ok || ld.Op != token.MUL {
+		return nil, false
+	}
+	var suffix []ctElem // innermost first
+	addr := ld.X
+	user := ssa.Instruction(ld)
+	for i := 0; i < 16; i++ {
+		switch x := addr.(type) {
+		case *ssa.FieldAddr:
+			suffix = append(suffix, ctElem{Field: x.Field})
+			addr = x.X
+		case *ssa.IndexAddr:
+			if _, isPtr := x.X.Type().Underlying().(*types.Pointer); !isPtr {
+				return nil, false
+			}
+			idx := ip.ResolveAt(x.Index)
+			if k, isK := c07Int(idx); isK {
+				suffix = append(suffix, ctElem{Field: -1, Index: k})
+			} else if sw != nil && idx == sw {
+				suffix = append(suffix, ctElem{Field: -1, Index: s})
+			} else {
+				return nil, false
+			}
+			addr = x.X
+		case *ssa.Global:
+			path := make([]ctElem, 0, len(suffix))
+			for j := len(suffix) - 1; j >= 0; j-- {
+				path = append(path, suffix[j])
+			}
+			return p.ConstTableOf(x).Lookup(path)
+		case *ssa.Alloc:
+			st := c07LocalCopyOf(x)
+			if st == nil || !ip.OnPath(st) {
+				return nil, false
+			}
+			// the copy is made before it is read: the store's block strictly dominates the reader's, or precedes it in the same block
+			sb, ub := st.Block(), user.Block()
+			if sb == ub {
+				if instrIndex(st) > instrIndex(user) {
+					return nil, false
+				}
+			} else if !sb.Dominates(ub) {
+				return nil, false
+			}
+			src, isLoad := ip.ResolveAt(st.Val).(*ssa.UnOp)
+			if !isLoad || src.Op != token.MUL {
+				return nil, false
+			}
+			addr = src.X
+			user = src
+		default:
+			return nil, false
+		}
+	}
+	return nil, false
+}
+
+// c07StatesOnPath: the states 0..3 of the excess/disjoint switch that the outcomes of the path leave possible. Tests
+// of the state against constants are read as in c07StateOnPath; a test of a value read from a constant table at the
+// state (`if steps[side][state].excess`) leaves the states for which the table holds the value the outcome requires.
+// Outcomes that say nothing decidable about the state leave every state possible (the caller then judges the path
+// for each of them).
+func c07StatesOnPath(p *Prog, ip *IterPath, sw ssa.Value) []int64 {
+	possible := map[int64]bool{0: true, 1: true, 2: true, 3: true}
+	relOf := func(a, b int64) int {
+		switch {
+		case a < b:
+			return c07RelLT
+		case a > b:
+			return c07RelGT
+		}
+		return c07RelEQ
+	}
+	for _, g := range ip.Conds {
+		if o, set, ok := c07FactAbout(g.Cond, g.True, func(v ssa.Value) bool { return v == sw }); ok {
+			if k, isK := c07Int(o); isK {
+				for s := range possible {
+					if set&relOf(s, k) == 0 {
+						delete(possible, s)
+					}
+				}
+			}
+			continue
+		}
+		// a boolean read from the table
+		cond, outcome := g.Cond, g.True
+		for {
+			if u, isU := cond.(*ssa.UnOp); isU && u.Op == token.NOT {
+				cond, outcome = u.X, !outcome
+				continue
+			}
+			break
+		}
+		if bt, isB := cond.Type().Underlying().(*types.Basic); isB && bt.Info()&types.IsBoolean != 0 {
+			if _, isCmp := cond.(*ssa.BinOp); !isCmp {
+				for s := range possible {
+					if val, ok := c07TableEval(p, ip, cond, sw, s); ok && val.Kind() == constant.Bool && constant.BoolVal(val) != outcome {
+						delete(possible, s)
+					}
+				}
+				continue
+			}
+		}
+		// an integer read from the table compared with a constant
+		if x, y, set, ok := c07Fact(g.Cond, g.True); ok {
+			if k, isK := c07Int(y); isK {
+				for s := range possible {
+					if val, okV := c07TableEval(p, ip, x, sw, s); okV && val.Kind() == constant.Int {
+						if n, exact := constant.Int64Val(val); exact && set&relOf(n, k) == 0 {
+							delete(possible, s)
+						}
+					}
+				}
+			}
+		}
+	}
+	var out []int64
+	for s := int64(0); s <= 3; s++ {
+		if possible[s] {
+			out = append(out, s)
+		}
+	}
+	return out
 }
